@@ -120,8 +120,11 @@ def _transitions(trace, cfg, sid, items=None):
             else:
                 k = "trim"
             if prev is not None:
+                # CODE-DERIVED: with --tac an unranked (pass-through) result list is the input reversed, and "the first item"
+                # that tracking latches on when the previous list was empty is the first INPUT item, i.e. the last row
+                tacpass = "--tac" in cfg.extra and (not e.get("sort", True) or e["input"] == "")
                 recs.append(dict(base, k="list", pre=state_of(prev), post=st, kind=k, minLoaded=e["minIndex"], oldList=ids,
-                                 newList=e["ids"], maxItems=mi))
+                                 newList=e["ids"], maxItems=mi, tacpass=tacpass))
             prev_rev = e["rev"]
             ids = e["ids"]
             texts = [chars.syms(t) if chars.known(t) else ["e"] for t in (e.get("texts") or [])]
